@@ -5,6 +5,7 @@
 #include <cstdio>
 #include <cstring>
 #include <set>
+#include <unistd.h>
 #include <stdexcept>
 
 using namespace sim;
@@ -304,7 +305,12 @@ World::World(Scenario const& s) : scn(s)
 			cfg->dns[d[1]] = e;
 		}
 		else if (d[0] == "node") node_decls.push_back(d);
-		else if (d[0] == "pcap" && d.size() >= 2) { pcap = true; pcap_file = d[1]; }
+		else if (d[0] == "pcap")
+		{
+			pcap = true;
+			pcap_file = g_trace_path + ".pcap." + std::to_string(long(getpid()));
+			pcap_path = pcap_file;
+		}
 	}
 	sim.reset(new simulation(*cfg));
 	if (pcap) sim->log_pcap(pcap_file.c_str());
@@ -508,6 +514,21 @@ World::~World()
 	nodes.clear();
 	sim.reset();
 	cfg.reset();
+	if (!pcap_path.empty())
+	{
+		// the capture is complete once the simulation (and its pcap object) is gone
+		std::FILE* f = std::fopen(pcap_path.c_str(), "rb");
+		std::vector<unsigned char> bytes;
+		if (f)
+		{
+			unsigned char buf[65536];
+			std::size_t n;
+			while ((n = std::fread(buf, 1, sizeof(buf), f)) > 0) bytes.insert(bytes.end(), buf, buf + n);
+			std::fclose(f);
+		}
+		std::remove(pcap_path.c_str());
+		emit("F pcap %s", hex(bytes.data(), bytes.size()).c_str());
+	}
 	sim::verif::step_hook = nullptr;
 	g_world = nullptr;
 }
